@@ -305,7 +305,7 @@ static struct Register {
 		Cfg c;
 #if SEL(0)
 		addUnit<TList<MT> >("C15/CallbackList/multi", 0, c, 5, 8);
-		addUnit<TList<VThreading> >("C15/CallbackList/vmutex", 0, c, 4, 9);
+		addUnit<TList<VThreading> >("C15/CallbackList/vmutex", 0, c, 4, 8);
 #endif
 #if SEL(1)
 		addUnit<TDisp<MT> >("C15/EventDispatcher/multi", 0, c, 5, 8);
